@@ -735,12 +735,17 @@ class _DAOStarFinderCatalog:
         """
         # remove all non-finite values - consider these non-detections
         attrs = ('xcentroid', 'ycentroid', 'hx', 'hy', 'sharpness',
-                 'roundness1', 'roundness2', 'peak', 'flux')
+                 'roundness1', 'roundness2', 'peak', 'flux',
+                 'daofind_mag')
         mask = np.ones(len(self), dtype=bool)
         for attr in attrs:
             # if threshold_eff == 0, flux will be np.inf, but
             # coordinates can still be used
             if self.threshold_eff == 0 and attr == 'flux':
+                continue
+            # daofind_mag is defined only relative to a positive
+            # threshold
+            if self.threshold_eff <= 0 and attr == 'daofind_mag':
                 continue
             mask &= np.isfinite(getattr(self, attr))
         newcat = self[mask]
